@@ -139,6 +139,7 @@ var sigs = map[string]sig{
 	"redactCommand":                   {},
 	"redactNamespace":                 {},
 	"RedactMongoLog":                  {},
+	"ReadKeyFromFile":                 {},
 }
 
 // functions that call one another: emitted in one `mutual` block, all with a fuel argument
@@ -147,7 +148,7 @@ var mutualGroups = [][]string{{"redactQueryValues", "redactArrayValuesWithKey"}}
 // emission order (callees first)
 var order = []string{"HashName", "reMatchesAnyKeyInPath", "redactString", "IsEmail", "withinSearchUserDocument", "RemoveElementAfter", "RemoveElementsBeforeIncluding",
 	"traverseMapPath", "getOp", "redactScalarValue", "isFieldNameValue", "isRedactableFieldPatternInArray", "isInSearchStage", "augmentOp",
-	"redactQueryValues", "redactArrayValuesWithKey", "redactArrayValues", "redactNamespaceFields", "redactOperation", "redactCommand", "redactNamespace", "RedactMongoLog"}
+	"redactQueryValues", "redactArrayValuesWithKey", "redactArrayValues", "redactNamespaceFields", "redactOperation", "redactCommand", "redactNamespace", "RedactMongoLog", "ReadKeyFromFile"}
 
 type gname struct {
 	lean string
@@ -350,6 +351,8 @@ func (x *tr) coerce(n ast.Node, e ex, to *ty) ex {
 			return ex{"none", to, false}
 		case "StrList":
 			return ex{"([] : List Str)", to, false}
+		case "Bytes":
+			return ex{"([] : Bytes)", to, false}
 		case "JObj":
 			return ex{"([] : List (Str × J))", to, false} // the nil map returned next to an error: never looked at
 		case "Err":
@@ -777,6 +780,29 @@ func (x *tr) call(c *ast.CallExpr) ex {
 		if len(a) == 4 && a[0].t.k == "J" && a[1].t.k == "Bool" && a[2].t.k == "StrList" && a[3].t.k == "Bool" {
 			return ex{"(← g.redactPipelineStage " + a[0].s + " " + a[1].s + " " + a[2].s + " " + a[3].s + ")", T("J"), true}
 		}
+	case "os.ReadFile":
+		a := args()
+		if len(a) == 1 && a[0].t.k == "Str" {
+			return ex{"(errPair (g.ReadFile " + a[0].s + "))", &ty{k: "Tuple", elems: []*ty{T("Bytes"), T("Err")}}, a[0].partial}
+		}
+	case "base64.StdEncoding.DecodeString":
+		// DecodeString(string(b)) for a byte slice b: the decoder reads the bytes
+		if len(c.Args) == 1 {
+			if cv, ok := c.Args[0].(*ast.CallExpr); ok && calleeName(cv) == "string" && len(cv.Args) == 1 {
+				b := x.expr(cv.Args[0])
+				if b.t.k == "Bytes" {
+					return ex{"(errPair (g.b64dec " + b.s + "))", &ty{k: "Tuple", elems: []*ty{T("Bytes"), T("Err")}}, b.partial}
+				}
+			}
+		}
+	case "fmt.Errorf":
+		// an error value: only its being non-nil is observable to the translated code (the message goes to stderr)
+		for _, a := range c.Args {
+			if x.expr(a).partial {
+				x.bad(c, "fmt.Errorf with an argument that can panic")
+			}
+		}
+		return ex{"true", T("Err"), false}
 	case "UnmarshalOrdered":
 		a := args()
 		if len(a) == 1 && a[0].t.k == "Bytes" {
